@@ -275,6 +275,8 @@ def run(tier, seed, t0):
                     return found
         return found
 
+    for x in LOST_ENCODINGS:
+        disagreements.append({'what': 'to_vec gave no usable answer, so no reader / writer case was built for it: ' + x})
     return conclude(PID, tier, seed, t0, coq, stats, disagreements, failures, search,
                     level_note='theorems about the Gallina model of the readers and of read_exact / vec_from_reader; tie to the Rust code by differential execution on this run (std::io in the std builds, nostd_io.rs in the nostd builds)')
 
